@@ -11,7 +11,9 @@
    output: <id> ACC ret=<1|0|-> tag=<n|-> dst=<ids> closed=<1|0>
              closed = the destination was link-closed after EVERY event of the trace (self-check of
              the model-side predicate; the theorem C02_closed_always says it is always 1)
-        or <id> REJ <index> <token>  (first event the transition system refuses) *)
+        or <id> REJ <index> <token>  (first event the transition system refuses)
+        or <id> VIEWDIFF ...         (api x only: the two views of the fan-out -- virtual super-root,
+                                      CopySpec's c_xroots -- disagree on the trace) *)
 let z_of_int i = if i = 0 then Z0 else if i > 0 then Zpos (pos_of_int i) else Zneg (pos_of_int (-i))
 let ints s = if s = "-" || s = "" then [] else List.map int_of_string (String.split_on_char ',' s)
 let show_ints l = if l = [] then "-" else String.concat "," (List.map string_of_int l)
@@ -72,39 +74,49 @@ let () =
           dkey.(n0) <- n0;
           succ.(n0) <- List.map nat_of_int roots
         end else if List.length roots <> 1 then failwith "roots";
-        let get a d x = let i = int_of_nat x in if i < n then a.(i) else d in
-        let g = { g_n = nat_of_int n;
-                  g_succ = (fun x -> get succ [] x);
-                  g_foreign = (fun x -> get foreign false x);
-                  g_ismf = (fun x -> get ismf false x);
-                  g_dkey = (fun x -> let i = int_of_nat x in nat_of_int (if i < n then dkey.(i) else 1000000 + i)) } in
         let mode = match sapi with "g" | "x" -> MGraph | "t" -> MTagger | "r" -> MRefPush | _ -> failwith "api" in
-        let root = if ext then n0 else List.hd roots in
-        let c = { c_K = eff_K_gen (z_of_int (int_of_string sk)); c_mode = mode; c_root = nat_of_int root; c_mount = false;
-                  c_tagmounted = true; c_cached0 = [] } in
         let d0 = List.map nat_of_int (ints sd0) in
         let toks = if strace = "-" then [] else String.split_on_char ',' strace in
         let tr = List.map event_of toks in
-        let closed = ref (closedb g d0) in
-        let rec go fs tr i =
-          match tr with
-          | [] -> Ok fs
-          | e :: tr' ->
-            (match fstep g c ext fs e with
-             | None -> Error i
-             | Some fs' ->
-               if not (closedb g fs'.fb.dst) then closed := false;
-               go fs' tr' (i + 1)) in
-        match go (finit c ext d0) tr 0 with
-        | Error i ->
-          Printf.printf "%s REJ %d %s\n" id i (List.nth toks i)
-        | Ok fs ->
-          let st = fs.fb in
-          let ret = match st.returned with Some true -> "1" | Some false -> "0" | None -> "-" in
-          let tg = match st.tag with Some t -> string_of_int (int_of_nat t) | None -> "-" in
-          let pres d = sort_uniq_ints (List.filter (fun i -> i < n0) (List.map int_of_nat (present_nodes g d))) in
-          Printf.printf "%s ACC ret=%s tag=%s dst=%s closed=%s\n" id ret tg (show_ints (pres st.dst))
-            (if !closed then "1" else "0")
+        (* evaluate the trace on the universe of the first [n] nodes, as a call with configuration
+           (root, xroots) in view [ext] *)
+        let eval n ext root xroots =
+          let get a d x = let i = int_of_nat x in if i < n then a.(i) else d in
+          let g = { g_n = nat_of_int n;
+                    g_succ = (fun x -> get succ [] x);
+                    g_foreign = (fun x -> get foreign false x);
+                    g_ismf = (fun x -> get ismf false x);
+                    g_dkey = (fun x -> let i = int_of_nat x in nat_of_int (if i < n then dkey.(i) else 1000000 + i)) } in
+          let c = { c_K = eff_K_gen (z_of_int (int_of_string sk)); c_mode = mode; c_root = nat_of_int root; c_mount = false;
+                    c_tagmounted = true; c_cached0 = []; c_xroots = List.map nat_of_int xroots } in
+          let closed = ref (closedb g d0) in
+          let rec go fs tr i =
+            match tr with
+            | [] -> Ok fs
+            | e :: tr' ->
+              (match fstep g c ext fs e with
+               | None -> Error i
+               | Some fs' ->
+                 if not (closedb g fs'.fb.dst) then closed := false;
+                 go fs' tr' (i + 1)) in
+          match go (finit c ext d0) tr 0 with
+          | Error i -> Printf.sprintf "REJ %d %s" i (List.nth toks i)
+          | Ok fs ->
+            let st = fs.fb in
+            let ret = match st.returned with Some true -> "1" | Some false -> "0" | None -> "-" in
+            let tg = match st.tag with Some t -> string_of_int (int_of_nat t) | None -> "-" in
+            let pres d = sort_uniq_ints (List.filter (fun i -> i < n0) (List.map int_of_nat (present_nodes g d))) in
+            Printf.sprintf "ACC ret=%s tag=%s dst=%s closed=%s" ret tg (show_ints (pres st.dst))
+              (if !closed then "1" else "0") in
+        if ext then begin
+          (* ExtendedCopyGraph under both views: the virtual super-root n0 of Model/CopyFault.v, and
+             CopySpec's c_xroots (first root as c_root, the others dispatched with it) *)
+          let a = eval n true n0 [] in
+          let b = (match roots with r :: rs -> eval n0 false r rs | [] -> failwith "no roots") in
+          if a = b then Printf.printf "%s %s\n" id a
+          else Printf.printf "%s VIEWDIFF superroot=[%s] xroots=[%s]\n" id a b
+        end else
+          Printf.printf "%s %s\n" id (eval n false (List.hd roots) [])
       with Failure m -> Printf.printf "%s BAD %s\n" id m)
     | [] -> ()
     | _ -> Printf.printf "BADLINE %s\n" l)
